@@ -317,22 +317,34 @@ class TaskMonitor:
         self.in_calculate = False
         self.current_list = None
         self.histories = set()
+        self.params_seen = []       # every PhononContributionTaskParams created since the last reset (C04 de-dup window detection)
 
     def attach(self):
         import cij.core.tasks as tk
         self.tk = tk
         mon = self
 
+        class Sig(tuple):
+            """(type, key, strain arrays) with the property's own notion of sameness: equal type and key,
+            strains equal to numpy.allclose (the de-duplication by approximate equality)."""
+            def __eq__(self, other):
+                if self[0] != other[0] or self[1] != other[1] or len(self[2]) != len(other[2]):
+                    return False
+                return all(x.shape == y.shape and numpy.allclose(x, y) for x, y in zip(self[2], other[2]))
+            __hash__ = None
+
+            def __repr__(self):
+                return f"{self[0]}{self[1]}~{[numpy.round(x.ravel()[:3], 6).tolist() for x in self[2]]}"
+
         def sig(params):
             try:
                 if params.calc_type == tk.ElasticModulusCalculationType.SHEAR:
                     s, key = params.params
-                    return ("S", tuple(int(x) for x in key.voigt), tuple(numpy.round(numpy.asarray(s, float).ravel()[:6], 9)))
+                    return Sig(("S", tuple(int(x) for x in key.voigt), (numpy.asarray(s, float),)))
                 a, b = params.params
-                return (params.calc_type.name[0], tuple(numpy.round(numpy.asarray(a, float).ravel()[:3], 9)),
-                        tuple(numpy.round(numpy.asarray(b, float).ravel()[:3], 9)))
+                return Sig((params.calc_type.name[0], None, (numpy.asarray(a, float), numpy.asarray(b, float))))
             except Exception:
-                return ("?", repr(params)[:40])
+                return Sig(("?", repr(params)[:40], ()))
         self.sig = sig
 
         def to_params(_key):
@@ -350,6 +362,11 @@ class TaskMonitor:
             store = mon.store_names.get(id(args[0]))
             if store:
                 mon.events.append(("read", store, sig(to_params(args[1])), exc is None, mon.in_calculate))
+
+        def create_after(args, kwargs, result, exc):
+            if exc is None and len(mon.params_seen) < 200000:
+                mon.params_seen.append(result)
+        self.undo.append(hook_method(tk.PhononContributionTaskParams, "create", after=create_after))
 
         R = tk.PhononContributionTaskResults
         self.undo.append(hook_method(R, "__setitem__", before=set_before))
@@ -408,7 +425,7 @@ class TaskMonitor:
         pos = {id(t): n for n, t in enumerate(tl.data)}
         order_sig = []
         for n, task in enumerate(tl.data):
-            order_sig.append(self.sig(task.task_params)[:2])
+            order_sig.append((self.sig(task.task_params)[0], self.sig(task.task_params)[1]))
             for strain, key in task.get_dependencies():
                 p = tk.PhononContributionTaskParams.create(strain, key)
                 cands = [m for m, t in enumerate(tl.data) if t.task_params == p]
